@@ -178,7 +178,13 @@ def eval_pure(F, name, argvals, depth=0):
     g = F.fns.get(name)
     if g is None or depth > 3 or len(g.blocks) > 80 or not all(isinstance(a, tuple) and a[0] in ('int', 'enum') for a in argvals):
         return None
-    env = {'_%d' % (i + 1): a for i, a in enumerate(argvals)}
+    env = {}
+    for i, a in enumerate(argvals):
+        if g.local_ty(i + 1).startswith('&'):
+            env['_%d' % (i + 1)] = ('ref', '$arg%d' % i)      # `&self` / `&T` parameter: the constant is what it points to
+            env['$arg%d' % i] = a
+        else:
+            env['_%d' % (i + 1)] = a
     ps = AbsInt(F, g, env, max_paths=8, decide_call=lambda n, a, t_: char_pred(n, a, t_) or eval_pure(F, n, a, depth + 1)).run()
     rets = [p.env.get('_0') for p in ps if p.exit == 'return']
     if len(ps) == 1 and len(rets) == 1 and rets[0] and rets[0][0] in ('int', 'enum'):
